@@ -1,6 +1,53 @@
-(* C15 — placeholder until proofs/Formats_Lemmas.v lands *)
-From Coq Require Import List NArith.
-From SosModel Require Import base.Bytes model.Formats.
-Theorem C15_pfail_total (A : Type) (s : bytes) : decode_top (@pfail A) s = None.
-Proof. exact eq_refl. Qed.
-Print Assumptions C15_pfail_total.
+(* C15 — malformed bytes are rejected with an error, never a crash.
+   A Gallina decoder is total by construction, so 'the model does not get stuck' is vacuous and
+   is NOT claimed.  What is proved about the model decoders: guarded reads never yield more
+   than MAX_BUFFER_SIZE bytes and only what the input holds; Vec decoding cannot spin or
+   return more items than the input has bytes; a decoded timestamp is always in range; kind
+   tags outside the family's tag set (Noop = 0 included) are rejected.  That the
+   implementation behaves like these decoders (and neither panics nor aborts) is decided by
+   the differential mutant run. *)
+From Coq Require Import List NArith ZArith.
+From SosModel Require Import base.Bytes gen.Generated model.Formats proofs.Bytes_Lemmas proofs.Formats_Lemmas.
+Import ListNotations.
+
+Theorem C15_guarded_read_bound MAX n s b r : p_bytes_n MAX n s = Some (b, r) ->
+  lenb b = n /\ (n <= MAX)%N /\ s = b ++ r.
+Proof. exact (p_bytes_n_bound MAX n s b r). Qed.
+
+Theorem C15_read_past_end_is_error n s : (lenb s < n)%N -> take n s = None.
+Proof. exact (take_short n s). Qed.
+
+Theorem C15_vec_cannot_spin (A : Type) (p : parser A) fuel count s l r :
+  p_items fuel count p s = Some (l, r) -> (length l <= fuel)%nat /\ N.of_nat (length l) = count.
+Proof. exact (p_items_fuel A p fuel count s l r). Qed.
+
+Theorem C15_decoded_time_in_range s t r : p_time s = Some (t, r) -> wf_time t.
+Proof. exact (time_decoded_wf s t r). Qed.
+
+Theorem C15_write_unknown_tag_rejected k s : (k < 65536)%N -> ~ In k write_tags ->
+  p_write_event (e_u16 k ++ s) = None.
+Proof. exact (write_unknown_tag_rejected k s). Qed.
+Theorem C15_account_unknown_tag_rejected k s : (k < 65536)%N -> ~ In k account_tags ->
+  p_account_event (e_u16 k ++ s) = None.
+Proof. exact (account_unknown_tag_rejected k s). Qed.
+Theorem C15_file_unknown_tag_rejected k s : (k < 65536)%N -> ~ In k file_tags ->
+  p_file_event (e_u16 k ++ s) = None.
+Proof. exact (file_unknown_tag_rejected k s). Qed.
+Theorem C15_noop_is_not_a_tag :
+  ~ In EK_NOOP write_tags /\ ~ In EK_NOOP account_tags /\ ~ In EK_NOOP file_tags.
+Proof. exact noop_not_a_tag. Qed.
+
+(* non-vacuity: a guarded read that succeeds, one that is refused by the guard *)
+Theorem C15_nonvacuous_guard :
+  p_bytes_n 4 2 [1;2;3]%N = Some ([1;2]%N, [3%N]) /\ p_bytes_n 4 5 [1;2;3;4;5;6]%N = None.
+Proof. split; vm_compute; reflexivity. Qed.
+
+Print Assumptions C15_guarded_read_bound.
+Print Assumptions C15_read_past_end_is_error.
+Print Assumptions C15_vec_cannot_spin.
+Print Assumptions C15_decoded_time_in_range.
+Print Assumptions C15_write_unknown_tag_rejected.
+Print Assumptions C15_account_unknown_tag_rejected.
+Print Assumptions C15_file_unknown_tag_rejected.
+Print Assumptions C15_noop_is_not_a_tag.
+Print Assumptions C15_nonvacuous_guard.
